@@ -3,7 +3,7 @@
    exact hit, NewTreeCursor on an empty tree, treeCursor.Next on an exhausted cursor. *)
 From Coq Require Import List NArith Bool Arith Sorting.Sorted.
 From Storage Require Import Base.Bytes Cursor.StrOrder Cursor.Core Cursor.BoltCursor Cursor.Typed
-  Cursor.Filtered Cursor.Union Cursor.Tree Cursor.SetSym Cursor.Cases.
+  Cursor.Filtered Cursor.Union Cursor.Tree Cursor.SetSym Cursor.Cases Cursor.Reuse.
 Import ListNotations.
 Open Scope nat_scope.
 
@@ -107,3 +107,51 @@ Proof. vm_compute. reflexivity. Qed.
 Example tree_next_legacy_refuted :
   treeset_run_legacy true [e_a] 2 = [OCur e_a; OInvalid; OPanic].
 Proof. vm_compute. reflexivity. Qed.
+
+(* ---- re-opened runtime set symbol (Cursor/Reuse.v) ---------------------------------------------------- *)
+
+(* one symbol: row {a, b} left after one Next, then a row without bucket, then row {ab} sought past the end,
+   then a row with an empty bucket, then {a} again *)
+Example reuse_sample :
+  setsym_reuse_run tstring [(Some [e_a; e_b], [CNext]); (None, [CNext; CSeek e_a]);
+                            (Some [e_ab], [CSeek e_b]); (Some [], [CNext]); (Some [e_a], [])]
+  = [[OCur e_a; OCur e_b]; [OInvalid; OInvalid; OInvalid]; [OCur e_ab; OInvalid]; [OInvalid; OInvalid]; [OCur e_a]].
+Proof. vm_compute. reflexivity. Qed.
+
+(* OpenCursor without its else branch (value not reset when the row has no bucket): the cursor of the
+   second row shows the first row's element and never exhausts *)
+Example reopen_noreset_refuted :
+  setsym_reuse_run_noreset tstring [(Some [e_a; e_b], []); (None, [CNext; CNext])]
+  = [[OCur e_a]; [OCur e_a; OCur e_a; OCur e_a]]
+  /\ exists keys prev, ss_reopen_noreset keys false prev <> ss_open keys false.
+Proof.
+  split; [vm_compute; reflexivity|].
+  exists [], (mkSs true 0 (Some e_a)). vm_compute. discriminate.
+Qed.
+
+(* scans: ids x1 < x2 < x3, x1 has {a, b}, x2 has no bucket, x3 has {b} *)
+Definition scan_rows : list srow := [([120%N; 49%N], Some [e_a; e_b]); ([120%N; 50%N], None); ([120%N; 51%N], Some [e_b])].
+
+Example scan_rows_ok : rows_ok 4 scan_rows.
+Proof.
+  intros id b H. simpl in H. repeat (destruct H as [H|H]; [inversion H; subst; split; [repeat constructor | simpl; auto with arith]|]).
+  contradiction.
+Qed.
+
+Example scan_sample :
+  scan_run tstring 4 (FNot (FP PIsEmpty)) scan_rows = Ok [[120%N; 49%N]; [120%N; 51%N]] /\
+  scan_run tstring 4 (FP PIsEmpty) scan_rows = Ok [[120%N; 50%N]] /\
+  scan_run tstring 4 (FP (PAnyEq e_a)) scan_rows = Ok [[120%N; 49%N]] /\
+  scan_run tstring 4 (FP (PAnyNeq e_b)) scan_rows = Ok [[120%N; 49%N]] /\
+  scan_run tstring 4 (FP (PAllEq e_b)) scan_rows = Ok [[120%N; 50%N]; [120%N; 51%N]] /\
+  scan_run tstring 4 (FOr (FP (PCountEq 9)) (FNot (FP PIsEmpty))) scan_rows = Ok [[120%N; 49%N]; [120%N; 51%N]] /\
+  scan_run tstring 4 (FP (PCountEq 0)) scan_rows = Ok [[120%N; 50%N]].
+Proof. vm_compute. repeat split; reflexivity. Qed.
+
+(* without the reset: "not isEmpty" and "anyOf = a" return the row without a bucket, and
+   "count(f) = 9 or not isEmpty(f)" never ends (the count loop of row x2 starts on x1's element, Next is a no-op) *)
+Example scan_noreset_refuted :
+  scan_run_noreset tstring 4 (FNot (FP PIsEmpty)) scan_rows = Ok [[120%N; 49%N]; [120%N; 50%N]; [120%N; 51%N]] /\
+  scan_run_noreset tstring 4 (FP (PAnyEq e_a)) scan_rows = Ok [[120%N; 49%N]; [120%N; 50%N]] /\
+  scan_run_noreset tstring 50 (FOr (FP (PCountEq 9)) (FNot (FP PIsEmpty))) scan_rows = OutOfFuel.
+Proof. vm_compute. repeat split; reflexivity. Qed.
